@@ -1,11 +1,49 @@
 import QcoVerif.Driver.Heap
+import QcoVerif.Model.OpenQL
 /-
   Extension of the `heap` session protocol (OpenQL). `step` returns `none` for commands it does not know.
+
+    openql <c>       trace of `to_openql(c)` (tokens `open:<depth>:<top classes>:<classes>`, kernel calls, `ap`,
+                     `close`, joined by `;`) — the export lists the circuit with the mutating listing, so the
+                     session's heap is updated | `undef` when the nesting exceeds the walk's fuel
+    openqlexec <c>   the gate calls in the order the exported program executes them (no mutation)
+    openqlinorder <c>  the in-order image of the circuit (no mutation)
+    openqltable      class → instruction table
+    openqlop <Class> <qubits> <dur>   kernel calls of one free-standing operation (`-` = none)
 -/
 namespace Qco.Driver.HeapOpenQL
 
 open Qco Qco.Driver
 
-def step (_s : Sess) (_toks : List String) : Option (Sess × String) := none
+def showCalls (l : List QCall) : String := if l.isEmpty then "-" else ";".intercalate (l.map QCall.show)
+
+def withCirc (s : Sess) (c : String) (f : Nat → Sess × String) : Option (Sess × String) :=
+  match c.toNat? with
+  | some c => if c ≥ s.circs.size then some (s, "bad-op") else some (f s.circs[c]!)
+  | none => some (s, "bad-op")
+
+def step (s : Sess) (toks : List String) : Option (Sess × String) :=
+  match toks with
+  | ["openql", c] =>
+    withCirc s c (fun o =>
+      if !s.w.nestWithin s.w.depthFuel o then (s, "undef") else
+      let out := showTrace (s.w.openql o)
+      ({ s with w := s.w.qlMutate s.w.depthFuel o }, out))
+  | ["openqlexec", c] =>
+    withCirc s c (fun o =>
+      if !s.w.nestWithin s.w.depthFuel o then (s, "undef") else (s, showCalls (qlExec (s.w.openql o))))
+  | ["openqlinorder", c] =>
+    withCirc s c (fun o =>
+      if !s.w.nestWithin s.w.depthFuel o then (s, "undef") else (s, showCalls (s.w.qlInOrder o)))
+  | ["openqltable"] =>
+    some (s, ",".intercalate (Cls.all.filterMap (fun c =>
+      if c.qlSupported then some (c.name ++ "=" ++ (c.qlName.getD "*")) else none)))
+  | ["openqlop", cls, qs, dur] =>
+    match Cls.ofName? cls, parseList String.toInt? qs, parseDur? dur with
+    | some cls, some qs, some dur =>
+      let o : Op := { cls := cls, qs := qs, dur := dur.getD cls.defaultDur }
+      some (s, showCalls (s.w.qlCalls o))
+    | _, _, _ => some (s, "bad-op")
+  | _ => none
 
 end Qco.Driver.HeapOpenQL
